@@ -128,13 +128,15 @@ def check(case, ctx):
         base = np.linspace(0.0, 2.0, 41)
         k_ = int(case["ds"] * 1e6) % 41
         order = [(7 * i + k_) % 41 for i in range(41)]          # the caller's own order of s values (not sorted)
-        grid = O.ro(base[order] if case["el"] % 3 else base)
+        grid = base[order] if case["el"] % 3 else base
+        shape = [(41,), (41,), (4, 10), (10, 4), (2, 5), (1, 41)][int(case["ds"] * 1e7) % 6]
+        grid = O.ro(grid[:int(np.prod(shape))].reshape(shape))
         try:
             vals = np.asarray(structure.FormFactor(el, grid), float)
         except TypeError:
             vals = None          # vectorised evaluation is a convenience of the present implementation, not part of the property
             ctx.event("array-argument-unsupported (not claimed)")
-        refv = np.array([_f(c, float(x)) for x in grid])
+        refv = np.array([_f(c, float(x)) for x in grid.ravel()]).reshape(grid.shape)
         if vals is None:
             pass
         elif vals.shape != refv.shape:
